@@ -14,24 +14,49 @@
 (*                  identically                                            *)
 (***************************************************************************)
 EXTENDS TraceLib, Trie
-VARIABLES l, X, snaps, K, want
-tvars == <<l, X, snaps, K, want>>
+VARIABLES l, X, snaps, K, want,
+          t, snapT, dirtied, touches, lost, Xprev     \* bookkeeping for the known finding D14 (see below)
+tvars == <<l, X, snaps, K, want, t, snapT, dirtied, touches, lost, Xprev>>
 Ev == Trace[l]
 None == [none |-> TRUE]
 
-TInit == l = 1 /\ X = [e |-> "none"] /\ snaps = <<>> /\ K = <<>> /\ want = None /\ InitHW
-Adv == l <= NLines /\ l' = l + 1 /\ Consumed(l) /\ X' = Ev
-TKeccak == Adv /\ Ev.e = "keccak" /\ K' = Ev /\ UNCHANGED snaps /\ want' = None
-TNew == Adv /\ Ev.e = "newstate" /\ snaps' = <<>> /\ UNCHANGED K /\ want' = None
-TOp == Adv /\ Ev.e = "op" /\ UNCHANGED <<snaps, K>> /\ want' = None
+TInit == /\ l = 1 /\ X = [e |-> "none"] /\ snaps = <<>> /\ K = <<>> /\ want = None /\ InitHW
+         /\ t = 0 /\ snapT = <<>> /\ dirtied = {} /\ touches = {} /\ lost = {} /\ Xprev = [e |-> "none"]
+Adv == l <= NLines /\ l' = l + 1 /\ Consumed(l) /\ X' = Ev /\ Xprev' = X /\ t' = t + 1
+Fresh == snapT' = <<>> /\ dirtied' = {} /\ touches' = {} /\ lost' = {}
+\* the driver continues on a fresh StateDB instance after a commit: the bookkeeping of the old instance is dropped when
+\* the NEXT event is consumed (the root event itself is still judged with it)
+AfterCommit == X.e = "root" /\ X.kind = "commit"
+BSet(v) == IF AfterCommit THEN {} ELSE v
+BFun(v) == IF AfterCommit THEN <<>> ELSE v
+TKeccak == Adv /\ Ev.e = "keccak" /\ K' = Ev /\ UNCHANGED snaps /\ want' = None /\ Fresh
+TNew == Adv /\ Ev.e = "newstate" /\ snaps' = <<>> /\ UNCHANGED K /\ want' = None /\ Fresh
+\* D14 bookkeeping: a zero-value AddBalance on an existing EMPTY account is a "touch"; if the account had not been
+\* modified before in this StateDB instance the touch consumes its one-shot dirty callback
+IsCleanTouch == Ev.op = "addbalance" /\ Ev.v = 0 /\ Ev.a \notin BSet(dirtied) /\ "obs" \in DOMAIN X
+                /\ X.obs.accts[Ev.a].exist /\ X.obs.accts[Ev.a].empty /\ Ev.a # "a2"       \* a2 = RIPEMD precompile: exempt in the code
+TOp == /\ Adv /\ Ev.e = "op" /\ UNCHANGED <<snaps, K>> /\ want' = None
+       /\ snapT' = BFun(snapT) /\ lost' = BSet(lost)
+       /\ touches' = IF IsCleanTouch THEN BSet(touches) \cup {<<Ev.a, t>>} ELSE BSet(touches)
+       /\ dirtied' = IF Ev.op \in {"addlog"} \/ (Ev.op = "subbalance" /\ X.obs.accts[Ev.a].bal = <<>>) THEN BSet(dirtied) ELSE BSet(dirtied) \cup {Ev.a}
 TSnap == Adv /\ Ev.e = "snapshot" /\ UNCHANGED K /\ want' = None
+         /\ dirtied' = BSet(dirtied) /\ touches' = BSet(touches) /\ lost' = BSet(lost)
+         /\ snapT' = [i \in (DOMAIN BFun(snapT)) \cup {Ev.id} |-> IF i = Ev.id THEN t ELSE snapT[i]]
          /\ snaps' = [i \in (DOMAIN snaps) \cup {Ev.id} |-> IF i = Ev.id THEN Ev.obs ELSE snaps[i]]
 \* later revisions die with the revert; the observation recorded for the revision is what must be read back
-TRevert == Adv /\ Ev.e = "revert" /\ UNCHANGED K
+TRevert == Adv /\ Ev.e = "revert" /\ UNCHANGED <<K, dirtied>>
+           \* touches made after the revision are undone: touchChange.undo removes the account from the dirty set although
+           \* its dirty callback stays consumed - every later change of that account is lost at commit (D14)
+           /\ LET since == IF Ev.id \in DOMAIN snapT THEN snapT[Ev.id] ELSE 0
+                  undone == {p \in touches : p[2] >= since} IN
+                /\ lost' = lost \cup {p[1] : p \in undone}
+                /\ touches' = touches \ undone
+           /\ snapT' = [i \in {j \in DOMAIN snapT : j < Ev.id} |-> snapT[i]]
            /\ want' = (IF Ev.id \in DOMAIN snaps THEN snaps[Ev.id] ELSE [missing |-> Ev.id])
            /\ snaps' = [i \in {j \in DOMAIN snaps : j < Ev.id} |-> snaps[i]]
 \* Finalise clears the journal: no revision survives a root computation
-TRoot == Adv /\ Ev.e = "root" /\ snaps' = <<>> /\ UNCHANGED K /\ want' = None
+TRoot == /\ Adv /\ Ev.e = "root" /\ snaps' = <<>> /\ UNCHANGED K /\ want' = None /\ snapT' = <<>>
+         /\ dirtied' = BSet(dirtied) /\ touches' = BSet(touches) /\ lost' = BSet(lost)
 TSpec == TInit /\ [][TKeccak \/ TNew \/ TOp \/ TSnap \/ TRevert \/ TRoot]_tvars
 
 ----------------------------------------------------------------------------
@@ -49,19 +74,28 @@ CodeHashOf(ac) == IF ac.code = <<>> THEN EmptyCodeHash
 AccountRLP(ac, D) == Enc(Lst(<<Str(BE(ac.nonce)), Str(ac.bal), Str(StorageRoot(ac, D)), Str(CodeHashOf(ac))>>))
 WorldContent(o, D) == {<<Nibbles(K.keys[a]), AccountRLP(o.accts[a], D)>> : a \in {x \in DOMAIN o.accts : o.accts[x].exist}}
 
+\* KNOWN FINDING D14 (KNOWN_FINDINGS.json): accounts in `lost` had a zero-value touch reverted; the pinned code no
+\* longer tracks them as dirty, so what is committed for them is their state as of the reverted touch, not what the
+\* getters show.  For exactly those accounts the committed (reopened) record is accepted in place of the live one.
+LostNow == IF X.e = "root" THEN {a \in lost : X.obs.accts[a] # X.reopenObs.accts[a]} ELSE {}
+KnownD14 == LostNow # {} /\ PrintT(<<"KNOWN", "D14", l - 1>>)
+Patched(o) == [o EXCEPT !.accts = [a \in DOMAIN o.accts |-> IF a \in LostNow THEN X.reopenObs.accts[a] ELSE o.accts[a]]]
+
 IsRoot == X.e = "root"
 \* "the state root depends only on the resulting set of accounts and their contents ... equals the Merkle-Patricia
 \*  root the specification defines for that content"
-RootCanonicalT == IsRoot => (X.keccakOK /\ RootIsCanonical(X.root, Store, WorldContent(X.obs, Store)))
+RootCanonicalT == IsRoot => (X.keccakOK /\ RootIsCanonical(X.root, Store, WorldContent(Patched(X.obs), Store)))
+KnownFindingsT == IsRoot => (KnownD14 \/ TRUE)
 \* the code hash getter is the hash of the code getter
-CodeHashT == IsRoot => \A a \in DOMAIN X.obs.accts :
+CodeHashT == IsRoot => \A a \in (DOMAIN X.obs.accts) \ LostNow :
                X.obs.accts[a].exist => X.obs.accts[a].codeHash = CodeHashOf(X.obs.accts[a])
 \* "a state reopened from a committed root (or taken by Copy) reads back identically"
 \* (refund counter and logs are transaction-scoped and not part of the committed state)
 ReadBackT == IsRoot => /\ X.reopenErr = ""
-                       /\ X.reopenObs.accts = X.obs.accts
-                       /\ X.copyObs = X.obs
+                       /\ X.reopenObs.accts = Patched(X.obs).accts
+                       /\ Patched(X.copyObs).accts = Patched(X.obs).accts
+                       /\ X.copyObs.refund = X.obs.refund /\ X.copyObs.nlogs = X.obs.nlogs
 \* suicided accounts are gone and, when empty accounts are deleted, no empty account is left in the committed world
 \* among those the root computation touched (existence in the committed world implies non-suicided)
-NoSuicidedT == IsRoot => \A a \in DOMAIN X.obs.accts : X.obs.accts[a].exist => ~X.obs.accts[a].suicided
+NoSuicidedT == IsRoot => \A a \in (DOMAIN X.obs.accts) \ LostNow : X.obs.accts[a].exist => ~X.obs.accts[a].suicided
 =============================================================================
